@@ -893,6 +893,14 @@ def complex_grid(tier):
             c(n, "fft.%s(%s,axes=(0,-2)) repeated axis, mixed signs" % (n, kd), lambda np, x, _n=n: getattr(np.fft, _n)(x, axes=(0, -2)), [kinds[kd](2, 2)])
             c(n, "fft.%s(%s,axes=(1,1)) repeated axis" % (n, kd), lambda np, x, _n=n: getattr(np.fft, _n)(x, axes=(1, 1)), [kinds[kd](2, 2)])
     # real -> real through complex intermediates
+    KC = onp.array([0.7 + 0.2j, -1.3 + 0.6j, 0.4 - 0.9j, 1.1 + 0.3j])
+    CC = onp.array([0.5 - 1.0j, 2.0 + 0.25j])
+    WC = onp.array([1.0 + 2.0j, -0.5 + 0.5j])
+    c("concatenate", "real(sum(concatenate([real(exp(1j x) w), c_complex]) * k_complex)) real piece joined with complex constants",
+      lambda np, x: np.real(np.sum(np.concatenate([np.real(np.exp(1j * x) * WC), CC]) * KC)), [R(2)])
+    c("concatenate", "real(sum(concatenate([x, c_complex]) * k_complex)) minimal", lambda np, x: np.real(np.sum(np.concatenate([x, CC]) * KC)), [R(2)])
+    c("stack", "imag(sum(stack([x * x, c_complex]) * k)) real row stacked with a complex row", lambda np, x: np.imag(np.sum(np.stack([x * x, CC]) * KC.reshape(2, 2))), [R(2)])
+    c("where", "real(sum(where(mask, x, c_complex) * k))", lambda np, x: np.real(np.sum(np.where(onp.array([True, False]), x, CC) * KC[:2])), [R(2)])
     c("real(fft)", "sum real(fft(x))^2", lambda np, x: np.real(np.fft.fft(x)) ** 2, [R(4)])
     c("abs(fft)", "|fft(x)|^2 via real/imag", lambda np, x: np.real(np.fft.fft(x)) ** 2 + np.imag(np.fft.fft(x)) ** 2, [R(2)])
     c("irfft(rfft)", "irfft(rfft(x)*w)", lambda np, x: np.fft.irfft(np.fft.rfft(x) * onp.array([1.0, 2j, 0.5])), [R(4)])
@@ -977,6 +985,10 @@ def program_grid(tier):
     p("value gathered twice through a list inside a tuple index (diamond)", lambda np, x: np.sum(x[[0, 0, 1], 1:] * x[[1, 0, 0], :2]) + np.sum(x[:, [1, 1, 2]] ** 2), [R(2, 3)])
     p("aliasing gather (k and k-n) times the value itself", lambda np, x: x[[0, -2, 1]] * x[[1, 1, 0]] + x[[0, 0, 0]], [R(2)])
     p("take / repeat / tile of one value recombined", lambda np, x: np.sum(np.repeat(x, 2) * np.tile(x, 2)) + np.take(x, [1, 1, 0]) * x[0], [R(2)])
+    _KC = onp.array([0.7 + 0.2j, -1.3 + 0.6j, 0.4 - 0.9j, 1.1 + 0.3j])
+    _CC = onp.array([0.5 - 1.0j, 2.0 + 0.25j])
+    p("real value computed from a complex sub-graph, joined with complex constants, projected back to the reals",
+      lambda np, x: np.real(np.sum(np.concatenate([np.real(np.exp(1j * x) * onp.array([1.0 + 2.0j, -0.5 + 0.5j])), _CC]) * _KC)) + np.imag(np.sum(np.exp(1j * x) ** 2)), [R(2)])
     p("standardise", lambda np, x: (x - np.mean(x)) / np.std(x), [R(3)])
     p("softmax", lambda np, x: np.exp(x) / np.sum(np.exp(x)), [R(3)])
     p("logsumexp", lambda np, x: np.log(np.sum(np.exp(x))), [R(3)])
